@@ -372,6 +372,17 @@ def shrink(prop, mod, case, pred_is_prop=True, rounds=6):
 # --------------------------------------------------------------------------- main
 
 
+def changed_functions():
+    """functions of the library whose body differs from pins/source_functions.json (tools/pin_source.py)"""
+    try:
+        sys.path.insert(0, str(ROOT / "tools"))
+        import pin_source
+        r = pin_source.changed(os.path.join(os.environ.get("VERIF_REPO", "/repo"), "src"))
+        return r or []
+    except Exception as e:          # the pin is advisory: never let it break a check
+        return [f"<pin unavailable: {e}>"] if False else []
+
+
 def main():
     ap = argparse.ArgumentParser()
     ap.add_argument("prop")
@@ -446,6 +457,7 @@ def run(prop, mod, tier, seed, replay, evidence_path, t0):
             return 1
         return 0
 
+    source_changed = changed_functions()
     violations = []      # (kind, replay path)
     known_lines = []
     stats = {}
@@ -459,6 +471,15 @@ def run(prop, mod, tier, seed, replay, evidence_path, t0):
             for f in sorted(cdir.glob("*.json")):
                 corpus.append(json.loads(f.read_text())["case"])
         gen_cases = mod.gen(tier, seed)
+        # effort follows the change: when function bodies differ from the pinned (unchanged) tree, the quick tier runs
+        # two further independently seeded streams (a difference is never a verdict by itself)
+        if tier == "quick" and source_changed and not os.environ.get("VERIF_NO_ESCALATE"):
+            seen = {case_key(c) for c in gen_cases}
+            for extra_seed in (seed + 101, seed + 202):
+                for c in mod.gen(tier, extra_seed):
+                    if case_key(c) not in seen:
+                        seen.add(case_key(c))
+                        gen_cases.append(c)
         cases = corpus + gen_cases
         outs, corr_bad, prop_bad = evaluate(prop, mod, cases, "main")
         if os.environ.get("VERIF_DUMP"):
@@ -570,6 +591,8 @@ def run(prop, mod, tier, seed, replay, evidence_path, t0):
             "float_outputs_seen": sum(1 for o in outs if isinstance(o, dict) and o.get("_floats")),
             "known_findings_still_failing": len(known_lines),
             "broken_obligations": broken,
+            "source_functions_changed_since_pin": source_changed[:40],
+            "escalated_streams": 3 if (tier == "quick" and source_changed) else 1,
         },
         "assumptions": getattr(mod, "ASSUMPTIONS", []) + ["see coverage.trusted_base"],
         "wall_s": round(time.time() - t0, 1),
